@@ -3,6 +3,7 @@
 package strategy
 
 import (
+	podutils "github.com/DataDog/extendeddaemonset/pkg/controller/utils/pod"
 	corev1 "k8s.io/api/core/v1"
 
 	"time"
@@ -96,4 +97,25 @@ func ZZ_C16_noPanicSubSecondInterval() {
 	}
 	nondet.Observe("nCreate", len(res.PodsToCreate))
 	nondet.Reach("C16.subsecond.creates", err == nil && len(res.PodsToCreate) >= 1)
+}
+
+// ZZ_C16_noPanicPodBuilder: "for every spec the CRD schema accepts ... reconciliation returns a result or
+// an error but never crashes" — the pod template is part of the spec.  Over the template shapes of the C10
+// harnesses (no affinity, an empty affinity, a node affinity without required terms, one or several required
+// terms with or without a node-name field, tolerations, one or two containers), both node-binding modes,
+// every node annotation and setting of that lattice: building the pod and comparing it with itself
+// returns (a panic in the interpreted code is a violation).
+func ZZ_C16_noPanicPodBuilder() {
+	in := zzC10Pick(true)
+	rs, node, setting := zzC10Build(in)
+	pod, _ := podutils.CreatePodFromDaemonSetReplicaSet(fakeapi.NewScheme(), rs, node, setting, in.addAffinity)
+	nondet.Assert("C16.pod-builder.returns-a-pod", pod != nil)
+	if pod == nil {
+		return
+	}
+	ds := zzDaemonset(map[string]string{})
+	params := &Parameters{EDSName: zzEDSName, Strategy: &ds.Spec.Strategy, Replicaset: rs}
+	upToDate := compareCurrentPodWithNewPod(params, pod, NewNodeItem(node, setting))
+	nondet.Observe("upToDate", upToDate)
+	nondet.Reach("C16.pod-builder.node-affinity-without-required-terms", in.affinityShape == "no-required" && in.addAffinity)
 }
